@@ -41,7 +41,10 @@ POOL_SPECS = [
              "k": {"child": {"c": "LeafA", "p": {"v": 1}}, "items": [
                  {"c": "LeafA", "p": {"v": 1}}, {"c": "LeafB", "p": {"v": 2}}, {"c": "SubLeafA", "p": {"v": 3, "extra": "ab"}},
                  {"c": "Strs", "p": {"a": "a", "b": "abc"}}, {"c": "Strs", "p": {"a": "a b", "b": "a  b", "ab": "x y"}},
-                 {"c": "Strs", "p": {"a": "a\tb", "b": "x  y", "ab": "x\t y"}}]}},
+                 {"c": "Strs", "p": {"a": "a\tb", "b": "x  y", "ab": "x\t y"}},
+                 {"c": "Strs", "p": {"a": " a", "b": "  a", "ab": "a "}}, {"c": "Strs", "p": {"a": "a  ", "b": "a b ", "ab": "a  b"}},
+                 {"c": "Strs", "p": {"a": "  a", "b": "a b"}}, {"c": "Strs", "p": {"a": "a  b", "b": "a b"}},
+                 {"c": "Strs", "p": {"a": "x  y", "b": "a b"}}, {"c": "Strs", "p": {"a": "a b ", "b": "a"}}]}},
     {"c": "Uni", "k": {"one": {"c": "LeafA", "p": {"v": 0}}, "opt": None, "un": {"c": "LeafB", "p": {"v": 0}},
                        "ka": {"c": "LeafA", "p": {"v": 0}, "o": ["gen", 1]}, "kb": {"c": "LeafA", "p": {"v": 0}}}},
     {"c": "Seq", "k": {"items": [{"c": "Vals", "p": {"i": 10, "b": True}},
@@ -161,6 +164,20 @@ def check_text(data: dict, lab: Labels) -> None:
         spaced = None
     lab.tag(kind, lang)
     roots = _pool()
+    if data.get("before") is not None:
+        # another text (differing only in blanks inside a quoted regex, where they are significant) was
+        # compiled first: this text still gets its own meaning
+        from pyoak.match import pattern as _PM
+
+        compile_pattern(data["before"])
+        ok_a, m_a = compile_pattern(text)
+        beh_a = pattern_behaviour(m_a, roots) if ok_a else None
+        _PM._MATCHER_CACHE.clear()
+        ok_b, m_b = compile_pattern(text)
+        require(ok_a == ok_b, "acceptance-depends-on-compile-history", f"{text!r} after {data['before']!r}")
+        if ok_b:
+            require(pattern_behaviour(m_b, roots) == beh_a, "behaviour-depends-on-compile-history",
+                    f"{text!r} compiled after {data['before']!r} behaves differently from a fresh compilation")
     if lang == "pattern":
         ok, m = compile_pattern(text)
         if expect == "accept":
@@ -322,6 +339,12 @@ def st_texts(ctx: Ctx):
         ("syntax", ""), ("syntax", "/@"), ("syntax", "/Mixed/@items[a]LeafA"), ("syntax", "/Mixed[1"), ("syntax", "Mixed//"),
         ("syntax", "/@items[1]"), ("syntax", "/Mixed/@items[-1]LeafA"), ("syntax", "/Mixed/@items[*]LeafA"),
     ]).map(lambda t: {"kind": "illformed", "lang": "xpath", "text": t[1], "expect": "reject", "why": t[0]})
+    ws_pairs = st.sampled_from([
+        ('(Strs @a="a b")', '(Strs @a="a  b")'), ('(Strs @a="a  b")', '(Strs @a="a b")'), ('(Strs @a="a b")', '(Strs @a="a\tb")'),
+        ('(Strs @a="x y$")', '(Strs @a="x  y$")'), ('(* @a="a b" @b="a b")', '(* @a="a b" @b="a  b")'),
+        ('(Strs @a = "a b")', '(Strs @a = "a  b")'), ('(Mixed @items=[(Strs @a="x y") *])', '(Mixed @items=[(Strs @a="x  y") *])'),
+        ('(Strs @a=" a")', '(Strs @a="  a")'), ('(Strs @a="a ")', '(Strs @a="a  ")'), ('(Strs @a="a b")', '(Strs @a="a b ")'),
+    ]).map(lambda t: {"kind": "ws-in-string", "lang": "pattern", "before": t[0], "text": t[1], "expect": "accept"})
     rnd_pat = st.lists(st.sampled_from(PAT_ALPHABET), max_size=12).map(
         lambda ts: {"kind": "random", "lang": "pattern", "text": "".join(ts), "expect": None})
     rnd_xp = st.lists(st.sampled_from(XP_ALPHABET), max_size=10).map(
@@ -330,7 +353,7 @@ def st_texts(ctx: Ctx):
                     st.sampled_from(["pattern", "xpath"])).map(
         lambda t: {"kind": "unicode", "lang": t[1], "text": t[0], "expect": None})
     return st.one_of(pat, pat, pat, pat, xp, xp, xp, ill_pat, ill_xp, regex_bad, rnd_pat, rnd_xp, uni,
-                     st.one_of(deep_pat, deep_pat, deep_xp, regex_bad))
+                     st.one_of(deep_pat, deep_pat, deep_xp, regex_bad, ws_pairs, ws_pairs))
 
 
 # ------------------------------------------------------------------------------ atheris
